@@ -1,10 +1,14 @@
 #!/bin/bash
-# tools/try_seed.sh <property> <seed-dir> "<seeds>" : apply seeded patch to /repo, run the quick check, revert
-P=$1; D=$2; SEEDS=${3:-"1 5"}
-cd /repo && git apply --check "$D/patch.diff" 2>/dev/null || { echo "$P $D: PATCH DOES NOT APPLY"; exit 2; }
+# tools/try_seed.sh <property> <seed-dir> "<seeds>" [tier] : apply a seeded patch to a private worktree of
+# /repo's HEAD (so that /repo itself and concurrent trials are not disturbed), run the check against it
+# (VERIF_REPO), remove the worktree.
+P=$1; D=$2; SEEDS=${3:-"1 5"}; TIER=${4:-quick}
+W=/tmp/tryseed.$$.$RANDOM
+git -C /repo worktree add -q --detach $W HEAD || exit 2
+trap 'git -C /repo worktree remove --force $W >/dev/null 2>&1' EXIT
+cd $W && git apply --check "$D/patch.diff" 2>/dev/null || { echo "$P $D: PATCH DOES NOT APPLY"; exit 2; }
 git apply "$D/patch.diff"
 for s in $SEEDS; do
-  out=$(cd /verif && ./check $P --seed $s 2>&1); rc=$?
+  out=$(cd /verif && VERIF_REPO=$W ./check $P --tier $TIER --seed $s 2>&1); rc=$?
   echo "$P $(basename $D) seed=$s rc=$rc $(echo "$out" | grep -a '\[done\]' | sed 's/.*validated, //') $(echo "$out" | grep -a -m1 'REJECTED\|MACHINERY' | cut -c1-260)"
 done
-cd /repo && git apply -R "$D/patch.diff"
